@@ -963,7 +963,8 @@ void op_welch(Ctx& c, const Op& op) {
     const arr_cmplx& z = CTX_C(op.iarg(1));
     const int winlen = 2 + int(op.iarg(2)) % 200;
     const int nfft_ok = 1 << dsplib::nextpow2(winlen);
-    const int nfft = (op.iarg(3) % 4 == 0) ? nfft_ok + 1 : nfft_ok;   // non-power-of-two must be rejected
+    // non-power-of-two sizes (also huge ones) must be rejected before anything is allocated
+    const int nfft = (op.iarg(3) % 4 == 0) ? nfft_ok + 1 : (op.iarg(3) % 7 == 0) ? 2147483647 - int(op.iarg(4) % 1000) : nfft_ok;
     const int nov = (op.iarg(3) % 5 == 0) ? winlen : int(uint64_t(op.iarg(4)) % uint64_t(winlen));
     switch (op.iarg(5) % 6) {
     case 0:
@@ -1338,7 +1339,7 @@ Op gen_op(Rng& r, const OpDef& d, bool misuse) {
     } else if (k == "nextprime" || k == "primes") {
         op.a = {double(r.chance(0.5) ? r.logi(1, 1 << 18) : r.range(0, 300))};
     } else if (k == "pow2") {
-        op.a = {double(r.logi(1, 1 << 30) - (r.chance(0.2) ? 1 : 0))};
+        op.a = {double(r.chance(0.3) ? r.range(1073741824ll - 2, 2147483647ll) : r.logi(1, 2147483647ll) - (r.chance(0.2) ? 1 : 0))};   // any int >= 0 is a valid scalar here
     } else if (k == "fromfile") {
         const int64_t nb = r.chance(0.2) ? r.range(0, 5) : r.logi(1, 4000);
         op.a = {double(nb), misuse ? double(r.range(1, 6)) : 0.0, R(0, 3), R(0, 1), double(r.chance(0.7) ? r.range(0, nb) : r.range(-4, nb + 9)),
